@@ -4,7 +4,7 @@ import (
 	"fmt"
 	"go/types"
 
-	"golang.org/x/tools/go/ssa"
+	"ikeverif/checker/xt/ssa"
 )
 
 // RunC15 decides property C15.
